@@ -437,6 +437,12 @@ class WidthInterp:
         if isinstance(e, ast.List):
             n = ZERO
             for x in e.elts:
+                if isinstance(x, ast.Starred):
+                    v = self.ev(x.value, path)
+                    if isinstance(v, CL):
+                        n = n + v.n
+                        continue
+                    return UNK
                 v = self.ev(x, path)
                 if isinstance(v, Chunk):
                     n = n + v.n
@@ -508,10 +514,41 @@ class WidthInterp:
             r = c(self, e, path)
             if r is not None:
                 return r
+        h = getattr(self, "helpers", {}).get(nm)
+        if h is not None and getattr(self, "_inline_depth", 0) < 2:
+            r = self.inline_helper(h, e, path)
+            if r is not None:
+                return r
         l = self.lin(e, path)
         if l is not None:
             return l
         return UNK
+
+    def inline_helper(self, h, e, path):
+        """A private helper with a straight-line body (assignments of names, then one return) is interpreted in place."""
+        ps = [a.arg for a in h.args.args]
+        if ps and ps[0] in ("self", "cls") and isinstance(e.func, ast.Attribute):
+            ps = ps[1:]
+        if len(ps) != len(e.args) or e.keywords:
+            return None
+        body = [st for st in h.body if not (isinstance(st, ast.Expr) and isinstance(st.value, ast.Constant))]
+        if not body or not isinstance(body[-1], ast.Return) or not all(isinstance(st, ast.Assign) and len(st.targets) == 1 and isinstance(st.targets[0], ast.Name) for st in body[:-1]):
+            return None
+        inner = path.fork()
+        inner.env = dict(path.env)
+        for p_, a in zip(ps, e.args):
+            inner.env[p_] = path.env.get(a.id) if isinstance(a, ast.Name) and a.id in self.pal else self.ev(a, path)
+        pal_backup = self.pal
+        self.pal = set(self.pal) | {p_ for p_, a in zip(ps, e.args) if isinstance(a, ast.Name) and a.id in pal_backup}
+        self._inline_depth = getattr(self, "_inline_depth", 0) + 1
+        try:
+            for st in body[:-1]:
+                inner.env[st.targets[0].id] = self.ev(st.value, inner)
+            r = self.ev(body[-1].value, inner) if body[-1].value is not None else None
+        finally:
+            self._inline_depth -= 1
+            self.pal = pal_backup
+        return r
 
     # ------------------------------------------------------------------ facts from tests
     def assume(self, test, pol, path):
